@@ -365,6 +365,23 @@ fn corpus_build() -> Vec<(&'static str, Mor)> {
             let g = hg(vec![0; 201], keep.iter().map(|&k| h.e[k].clone()).collect());
             Mor { g, h: h.clone(), w: ((0..201).collect(), 201), x: (keep, 200) }
         }),
+        // a path of 1300 operations: end nodes only (every connecting path is longer than a thousand steps)
+        ("very_long_path_endpoints", {
+            let h = long_path(1300);
+            Mor { g: hg(vec![0, 0], vec![]), h: h.clone(), w: (vec![0, 1300], 1301), x: (vec![], 1300) }
+        }),
+        // node maps of 300 entries on discrete hypergraphs: injective, and injective except that the last entry
+        // collides with an early one
+        ("large_node_map_injective", {
+            let n = 300;
+            Mor { g: hg(vec![0; n], vec![]), h: hg(vec![0; n + 5], vec![]), w: ((0..n).rev().collect(), n + 5), x: (vec![], 0) }
+        }),
+        ("large_node_map_last_entry_collides", {
+            let n = 300;
+            let mut w: Vec<usize> = (0..n).collect();
+            w[n - 1] = 3;
+            Mor { g: hg(vec![0; n], vec![]), h: hg(vec![0; n + 5], vec![]), w: (w, n + 5), x: (vec![], 0) }
+        }),
         ("long_path_prefix", {
             let h = long_path(200);
             let g = hg(vec![0; 121], (0..120).map(|k| h.e[k].clone()).collect());
@@ -426,6 +443,9 @@ impl Monitor for C18 {
             ("class:long_path_endpoints", 1),
             ("class:long_path_without_its_middle_operation", 1),
             ("class:long_path_prefix", 1),
+            ("class:very_long_path_endpoints", 1),
+            ("class:large_node_map_injective", 1),
+            ("class:large_node_map_last_entry_collides", 1),
             ("variant:TypeMismatchW", 20),
             ("variant:TypeMismatchX", 20),
         ]
